@@ -167,7 +167,9 @@ def trait_attr(name, ty='A', hint='', err='Er', params=''):
         args += ', ' + err
     if params:
         args += '| ' + params
-    return Attr(name, args)
+    a = Attr(name, args)
+    a.cp, a.hint, a.err, a.params = ty, hint.strip(), (err if is_fallible(name) else None), params
+    return a
 
 
 def member_forms(named, pos):
@@ -643,3 +645,402 @@ def uses_repeat(item):
                 if b.name in ('repeat', 'skip_repeat', 'stop_repeat') or (b.args and ('repeat(' in b.args or 'skip_repeat' in b.args or 'stop_repeat' in b.args)):
                     return True
     return False
+
+
+# ---------------------------------------------------------------------------------------------
+# C04: random multisets / orders of trait instructions that do not collide
+# ---------------------------------------------------------------------------------------------
+def multi_trait_items(rng, n):
+    out = []
+    for i in range(n):
+        kind = rng.choice(['struct', 'enum'])
+        cps = rng.sample(COUNTERPARTS[:7], rng.choice([1, 1, 2, 3]))
+        attrs = []
+        for cp in cps:
+            taken = set()
+            names = TRAIT_NAMES[:]
+            rng.shuffle(names)
+            for nm in names[:rng.choice([1, 2, 3, 5, 8])]:
+                ks = set(kinds_of(nm))
+                if ks & taken:
+                    continue
+                if kind == 'enum' and 'existing' in nm:
+                    continue
+                taken |= ks
+                hint = '' if cp.startswith('(') else rng.choice(['', '', ' as {}', ' as ()'])
+                if kind == 'enum':
+                    hint = ''
+                attrs.append(trait_attr(nm, cp, hint, rng.choice(ERRORS)))
+        rng.shuffle(attrs)
+        if kind == 'struct':
+            it = Item('struct', 'S', 'named', '', attrs, [Field('a', 'i32', [Attr('map', 'x')]), Field('b', 'i16', [Attr('map', 'y')])])
+        else:
+            it = Item('enum', 'E', 'named', '', attrs, [Variant('V'), Variant('W', 'tuple', [Field(None, 'i32')])])
+        it.meta = {'gen': 'multi_trait', 'n_instr': len(attrs), 'n_cp': len(cps)}
+        out.append(it)
+    return out
+
+
+# ---------------------------------------------------------------------------------------------
+# C13: which instructions have a bare form at their level
+# ---------------------------------------------------------------------------------------------
+TYPE_LEVEL_VALID = set(TRAIT_NAMES) | {'ghosts', 'ghosts_ref', 'ghosts_owned', 'child_parents', 'where_clause'}
+MEMBER_LEVEL_VALID = set(MEMBER_MAP_NAMES) | {'ghost', 'ghost_ref', 'ghost_owned', 'ghosts', 'ghosts_ref', 'ghosts_owned', 'child', 'parent',
+                                              'as_type', 'literal', 'pattern', 'type_hint', 'repeat', 'skip_repeat', 'stop_repeat'}
+
+
+def all_bare_valid(item):
+    """every instruction of the item is one that exists at the level it is written on (and has a bare form)"""
+    def ok(a, valid):
+        if isinstance(a, Group):
+            return all(ok(b, valid) for b in a.attrs)
+        if a.name in ('doc',):
+            return True
+        if BARE_FORMS is not None and a.name not in BARE_FORMS:
+            return a.o2o and a.name in valid
+        return a.name in valid
+    if not all(ok(a, TYPE_LEVEL_VALID) for a in item.attrs):
+        return False
+    for m in item.members:
+        if not all(ok(a, MEMBER_LEVEL_VALID) for a in m.attrs):
+            return False
+        if isinstance(m, Variant):
+            for f in m.fields:
+                if not all(ok(a, MEMBER_LEVEL_VALID) for a in f.attrs):
+                    return False
+    return True
+
+
+# ---------------------------------------------------------------------------------------------
+# C12: shortcuts at every level, incl. the nested [instr(..)] level of #[parent(..)]
+# ---------------------------------------------------------------------------------------------
+def shortcut_items(rng, n):
+    out = []
+    shorts = [x for x in TRAIT_NAMES if len(basics_of(x)) > 1]
+    mshorts = [x for x in MEMBER_MAP_NAMES if len(basics_of(x)) > 1]
+    nshorts = [x for x in INFALLIBLE if len(basics_of(x)) > 1]
+    for i in range(n):
+        named = rng.random() < 0.6
+        tname = rng.choice(shorts)
+        cp = rng.choice(['A', 'B<u8>', 'x::C'])
+        attrs = [trait_attr(tname, cp, rng.choice(['', '', ' as {}', ' as ()']))]
+        if rng.random() < 0.4:
+            attrs.append(trait_attr(rng.choice(shorts), 'Z', ''))
+        if rng.random() < 0.4:
+            attrs.append(Attr('ghosts', rng.choice(['gx: { 1 }', 'gx: { @.k }, gy: { 2 }', '7: { 3 }'])))
+        fields = []
+        for j in range(rng.randrange(1, 5)):
+            fa = []
+            r = rng.random()
+            m = ('n%d' % j) if named or rng.random() < 0.5 else str(j)
+            if r < 0.35:
+                fa.append(Attr(rng.choice(mshorts), rng.choice([m, '%s, ~.c()' % m, '~ + 1', '%s, { @.x }' % m])))
+            elif r < 0.5:
+                fa.append(Attr('ghost', rng.choice(['{ 0 }', '{ @.d }'])))
+            elif r < 0.6:
+                fa.append(Attr('ghost'))
+            elif r < 0.75:
+                fa.append(Attr('parent', rng.choice(['[%s(zz)] y' % rng.choice(nshorts), 'x, [%s(w, ~ * 2)] y' % rng.choice(nshorts),
+                                                      '[%s(q)] 0, [%s(r)] 1' % (rng.choice(nshorts), rng.choice(nshorts))])))
+            if rng.random() < 0.3:
+                fa.append(Attr(rng.choice(mshorts), m))
+            fields.append(Field(('a%d' % j) if named else None, 'i32', fa))
+        if rng.random() < 0.25:
+            vs = [Variant('V%d' % j, rng.choice(['unit', 'tuple', 'named']), [], [Attr(rng.choice(mshorts), 'W%d' % j)] if rng.random() < 0.5 else
+                          ([Attr('ghost', '{ E::V0 }', o2o=False)] if rng.random() < 0.3 else [])) for j in range(rng.randrange(1, 4))]
+            for v in vs:
+                if v.shape != 'unit':
+                    v.fields = [Field('x' if v.shape == 'named' else None, 'i32', [Attr(rng.choice(mshorts), 'k')] if rng.random() < 0.5 else [])]
+            eattrs = [a for a in attrs if 'existing' not in a.name and not getattr(a, 'hint', '')] or [trait_attr('map', 'A')]
+            eattrs = [a for a in eattrs if a.name != 'ghosts']
+            if rng.random() < 0.4:
+                eattrs.append(Attr('ghosts', rng.choice(['Gx: { E::V0 }', 'Gy(a): { mk(a) }'])))
+            out.append(Item('enum', 'E', 'named', '', eattrs, vs, {'gen': 'shortcut_enum'}))
+        else:
+            out.append(Item('struct', 'S', 'named' if named else 'tuple', '', attrs, fields, {'gen': 'shortcut_struct'}))
+    return out
+
+
+import re as _re
+
+
+def _expand_nested(args):
+    """inside #[parent(..)] arguments: write every nested [shortcut(args)] out as its basics"""
+    def rep(m):
+        nm, inner = m.group(1), m.group(2)
+        if nm in INFALLIBLE and len(basics_of(nm)) > 1:
+            return ' '.join('[%s(%s)]' % (b, inner) for b in basics_of(nm))
+        return m.group(0)
+    return _re.sub(r'\[(\w+)\(([^\[\]()]*(?:\([^()]*\))?[^\[\]()]*)\)\]', rep, args)
+
+
+_old_expand_one = _expand_one
+
+
+def _expand_one(a, ghost_pairs):   # noqa: F811  (extends the earlier definition with the nested-parent level)
+    if a.name == 'parent' and a.args and '[' in a.args:
+        return [a.clone(args=_expand_nested(a.args))]
+    return _old_expand_one(a, ghost_pairs)
+
+
+# ---------------------------------------------------------------------------------------------
+# C03: flattening - child tries (incl. prefix-named siblings), parameterised and bare parents
+# ---------------------------------------------------------------------------------------------
+NODE_NAMES = ['p', 'pq', 'p2', 'base', 'base_entity', 'q', 'r', 'n']
+
+
+class Tree:
+    """a nesting tree on the counterpart side: node name (ident or index), type, named?, children, leaves"""
+    def __init__(self, name, ty, named=True):
+        self.name, self.ty, self.named = name, ty, named
+        self.kids, self.leaves = [], []          # leaves: (flat field name / index, counterpart field name or None)
+
+
+def rand_tree(rng, depth, counter, named_levels=True):
+    names = NODE_NAMES[:]
+    rng.shuffle(names)
+    nodes = []
+    for nm in names[:rng.choice([1, 1, 2, 2, 3])]:
+        counter[0] += 1
+        t = Tree(nm, 'T%d' % counter[0])
+        if depth > 1 and rng.random() < 0.5:
+            t.kids = rand_tree(rng, depth - 1, counter)
+        nodes.append(t)
+    return nodes
+
+
+def c03_cases(rng, n):
+    """flat structs over random child tries, fields in a random order (all interleavings reachable);
+    parameterised / bare parents; struct-level ghosts addressed by child path"""
+    out = []
+    kinds = BASIC + [try_name(b) for b in BASIC]
+    for i in range(n):
+        r = rng.random()
+        if r < 0.65:
+            out.append(_c03_child_case(rng, i, kinds))
+        elif r < 0.9:
+            out.append(_c03_parent_case(rng, i, kinds))
+        else:
+            out.append(_c03_bare_parent_case(rng, i, kinds))
+    return out
+
+
+def _walk(nodes, prefix=()):
+    for t in nodes:
+        path = prefix + (t.name,)
+        yield path, t
+        for x in _walk(t.kids, path):
+            yield x
+
+
+def _c03_child_case(rng, i, kinds):
+    counter = [0]
+    nodes = rand_tree(rng, rng.choice([1, 1, 2, 3]), counter)
+    named = rng.random() < 0.75
+    flat = []     # (field name, path tuple or None, rename or None)
+    k = 0
+    for path, t in _walk(nodes):
+        for _ in range(rng.choice([1, 1, 2, 3]) if not t.kids else rng.choice([0, 1, 2])):
+            flat.append(('f%d' % k, path, ('m%d' % k) if (rng.random() < 0.3 or not named) else None))
+            k += 1
+    for _ in range(rng.choice([0, 1, 2])):
+        flat.append(('f%d' % k, None, ('m%d' % k) if not named and rng.random() < 0.9 else None))
+        k += 1
+    rng.shuffle(flat)
+    cpd = ', '.join('%s: %s' % ('.'.join(p), t.ty) for p, t in _walk(nodes))
+    tnames = rng.sample(kinds, rng.choice([1, 2, 3]))
+    attrs = [trait_attr(tn, 'A', ' as {}' if not named else '') for tn in tnames] + [Attr('child_parents', cpd)]
+    if rng.random() < 0.25:
+        p, t = rng.choice(list(_walk(nodes)))
+        attrs.append(Attr('ghosts', '%s@gz: { 7 }' % '.'.join(p)))
+    if rng.random() < 0.15:
+        attrs[0] = trait_attr(tnames[0], 'A', ' as {}' if not named else '', 'Er', '..Default::default()')
+    rng.shuffle(attrs)
+    fields = []
+    for (fname, path, ren) in flat:
+        fa = []
+        if path is not None:
+            fa.append(Attr('child', '.'.join(path)))
+        if ren:
+            fa.append(Attr('map', ren))
+        rng.shuffle(fa)
+        fields.append(Field(fname if named else None, 'i32', fa))
+    it = Item('struct', 'S', 'named' if named else 'tuple', '', attrs, fields,
+              {'gen': 'c03_child', 'tree': [('.'.join(p), t.ty) for p, t in _walk(nodes)],
+               'flat': [(fname if named else str(j), '.'.join(path) if path else None, ren) for j, (fname, path, ren) in enumerate(flat)]})
+    return it
+
+
+def _c03_parent_case(rng, i, kinds):
+    named = rng.random() < 0.8
+    tnames = rng.sample(kinds, rng.choice([1, 2]))
+    attrs = [trait_attr(tn, 'A', ' as {}' if not named and rng.random() < 0.5 else '') for tn in tnames]
+    forms = ['x, y', 'x, [map(yy)] y', '[parent(u, v)] inner: Inner, w', '[parent([parent(vendor, year)] core: Core)] base: Base, id',
+             '[parent(u)] inner, w', '[parent([parent(vendor)] core: Core)] base, id', 'x, [parent(y)] 0: T', '[map(a0)] 0, [map(a1)] 1',
+             'x, [parent(u, [parent(z)] deep: Deep)] inner: Inner']
+    fields = [Field('k' if named else None, 'i32', []), Field('par' if named else None, 'P', [Attr('parent', rng.choice(forms))])]
+    if rng.random() < 0.4:
+        fields.append(Field('par2' if named else None, 'P2', [Attr('parent', rng.choice(forms))]))
+    if rng.random() < 0.5:
+        fields.append(Field('z' if named else None, 'i16', [Attr('map', 'zz')] if rng.random() < 0.5 else []))
+    rng.shuffle(fields)
+    return Item('struct', 'S', 'named' if named else 'tuple', '', attrs, fields, {'gen': 'c03_parent'})
+
+
+def _c03_bare_parent_case(rng, i, kinds):
+    named = rng.random() < 0.8
+    tnames = rng.sample(kinds, rng.choice([1, 2, 3]))
+    params = rng.choice(['', '', 'vars(k: { 1 })', 'return mk(@)', '..Default::default()'])
+    attrs = [trait_attr(tn, 'A', '', 'Er', params) for tn in tnames]
+    fields = [Field('a' if named else None, 'i32', [Attr('map', 'x')] if rng.random() < 0.4 else []),
+              Field('par' if named else None, 'P', [Attr('parent')])]
+    if rng.random() < 0.3:
+        fields.append(Field('par2' if named else None, 'P2', [Attr('parent')]))
+    if rng.random() < 0.3:
+        fields.append(Field('g' if named else None, 'u8', [Attr('ghost', '{ 3 }')]))
+    rng.shuffle(fields)
+    return Item('struct', 'S', 'named' if named else 'tuple', '', attrs, fields, {'gen': 'c03_bare_parent'})
+
+
+# ---------------------------------------------------------------------------------------------
+# C10: random expression token trees in every accepting position, with the expected substitution
+# ---------------------------------------------------------------------------------------------
+C10_IDENTS = ['x', 'y', 'foo', 'Bar', 'clone', 'self_', 'value_', 'u8', 'r#type']
+C10_PUNCT = ['+', '-', '*', '/', '.', ',', ';', ':', '!', '?', '&', '|', '=', '<', '>', '#', '$', '%', '^']
+C10_LITS = ['1', '2.5', '1u8', '"a~@"', "'~'", "'@'", '"~"', 'b"@"', '0x1f']
+C10_OPS = ['::', '->', '=>', '..', '..=', '+=', '&&', '||', '<<', '==', '!=']
+
+
+def rand_tt(rng, depth=0, allow_tilde=True, n=None):
+    """a random token tree as a list of atoms: ('i', s) ('p', c) ('l', s) ('lt', name) ('g', delim, [..]) ('@',) ('~',)"""
+    out = []
+    n = rng.randrange(1, 7) if n is None else n
+    for _ in range(n):
+        r = rng.random()
+        if r < 0.16:
+            out.append(('@',))
+        elif r < 0.34 and allow_tilde:
+            out.append(('~',))
+        elif r < 0.5:
+            out.append(('i', rng.choice(C10_IDENTS)))
+        elif r < 0.6:
+            out.append(('l', rng.choice(C10_LITS)))
+        elif r < 0.7:
+            out.append(('p', rng.choice(C10_PUNCT)))
+        elif r < 0.76:
+            out.append(('o', rng.choice(C10_OPS)))
+        elif r < 0.8:
+            out.append(('lt', rng.choice(['a', 'static'])))
+        elif depth < 4:
+            out.append(('g', rng.choice(['()', '[]', '{}']), rand_tt(rng, depth + 1, allow_tilde)))
+        else:
+            out.append(('i', 'deep'))
+    return out
+
+
+def tt_text(tt):
+    parts = []
+    for a in tt:
+        if a[0] == '@':
+            parts.append('@')
+        elif a[0] == '~':
+            parts.append('~')
+        elif a[0] in ('i', 'l', 'p', 'o'):
+            parts.append(a[1])
+        elif a[0] == 'lt':
+            parts.append("'" + a[1])
+        else:
+            parts.append(a[1][0] + ' ' + tt_text(a[2]) + ' ' + a[1][1])
+    return ' '.join(parts)
+
+
+def tt_flat(tt, at, tilde):
+    """expected flattened token texts after substitution (the convention of vlib.flatten)"""
+    out = []
+    for a in tt:
+        if a[0] == '@':
+            out += at
+        elif a[0] == '~':
+            out += tilde
+        elif a[0] in ('i', 'l'):
+            out.append(a[1])
+        elif a[0] in ('p', 'o'):
+            out += list(a[1])
+        elif a[0] == 'lt':
+            out += ["'", a[1]]
+        else:
+            out += [a[1][0]] + tt_flat(a[2], at, tilde) + [a[1][1]]
+    return out
+
+
+def c10_cases(rng, n):
+    out = []
+    sites = ['field_named', 'field_renamed', 'field_child', 'field_tuple', 'vars', 'update', 'return', 'ghost', 'ghosts',
+             'vfield_named', 'vfield_tuple', 'variant_from', 'default_case', 'nested_parent']
+    for i in range(n):
+        site = sites[i % len(sites)]
+        tilde_ok = site in ('field_named', 'field_renamed', 'field_child', 'field_tuple', 'vfield_named', 'vfield_tuple', 'variant_from', 'nested_parent')
+        tt = rand_tt(rng, 0, tilde_ok)
+        if site in ('vars', 'ghost', 'ghosts'):
+            body = '{ %s }' % tt_text(tt)
+        else:
+            # a bare (unbraced) expression must not start with a brace group that is followed by more tokens; brace it half of the time
+            body = '{ %s }' % tt_text(tt) if rng.random() < 0.5 or (tt and tt[0][0] == 'g' and tt[0][1] == '{}') \
+                or (site == 'field_named' and tt[0][0] not in ('@', '~')) else tt_text(tt)
+        tr = [trait_attr('map', 'A'), trait_attr('into_existing', 'A')]
+        V, S = ['value'], ['self']
+        exp = {'from': None, 'into': None}
+        if site == 'field_named':
+            it = Item('struct', 'S', 'named', '', tr, [Field('a', 'i32', [Attr('map', body)]), Field('b', 'i16')])
+            exp = {'from': tt_flat(tt, V, ['value', '.', 'a']), 'into': tt_flat(tt, S, ['self', '.', 'a'])}
+        elif site == 'field_renamed':
+            it = Item('struct', 'S', 'named', '', tr, [Field('a', 'i32', [Attr('map', 'm, ' + body)]), Field('b', 'i16')])
+            exp = {'from': tt_flat(tt, V, ['value', '.', 'm']), 'into': tt_flat(tt, S, ['self', '.', 'a'])}
+        elif site == 'field_child':
+            it = Item('struct', 'S', 'named', '', tr + [Attr('child_parents', 'p: P, p.q: Q')],
+                      [Field('a', 'i32', [Attr('child', 'p.q'), Attr('map', 'm, ' + body)]), Field('b', 'i16')])
+            exp = {'from': tt_flat(tt, V, ['value', '.', 'p', '.', 'q', '.', 'm']), 'into': tt_flat(tt, S, ['self', '.', 'a'])}
+        elif site == 'field_tuple':
+            it = Item('struct', 'S', 'tuple', '', tr, [Field(None, 'i32', [Attr('map', '1, ' + body)]), Field(None, 'i16', [Attr('map', '0')])])
+            exp = {'from': tt_flat(tt, V, ['value', '.', '1']), 'into': tt_flat(tt, S, ['self', '.', '0'])}
+        elif site == 'vars':
+            tr2 = [trait_attr('map', 'A', '', 'Er', 'vars(k: %s)' % body), trait_attr('into_existing', 'A', '', 'Er', 'vars(k: %s)' % body)]
+            it = Item('struct', 'S', 'named', '', tr2, [Field('a', 'i32'), Field('b', 'i16')])
+            exp = {'from': tt_flat(tt, V, []), 'into': tt_flat(tt, S, [])}
+        elif site == 'update':
+            tr2 = [trait_attr('map', 'A', '', 'Er', '..' + body)]
+            it = Item('struct', 'S', 'named', '', tr2, [Field('a', 'i32'), Field('b', 'i16')])
+            exp = {'from': tt_flat(tt, V, []), 'into': tt_flat(tt, S, [])}
+        elif site == 'return':
+            tr2 = [trait_attr('map', 'A', '', 'Er', 'return ' + body), trait_attr('into_existing', 'A', '', 'Er', 'return ' + body)]
+            it = Item('struct', 'S', 'named', '', tr2, [Field('a', 'i32'), Field('b', 'i16')])
+            exp = {'from': tt_flat(tt, V, []), 'into': tt_flat(tt, S, [])}
+        elif site == 'ghost':
+            it = Item('struct', 'S', 'named', '', [trait_attr('from', 'A')], [Field('a', 'i32'), Field('g', 'i16', [Attr('ghost', body)])])
+            exp = {'from': tt_flat(tt, V, []), 'into': None}
+        elif site == 'ghosts':
+            it = Item('struct', 'S', 'named', '', [trait_attr('into', 'A'), trait_attr('into_existing', 'A'), Attr('ghosts', 'gx: ' + body)],
+                      [Field('a', 'i32'), Field('b', 'i16')])
+            exp = {'from': None, 'into': tt_flat(tt, S, [])}
+        elif site == 'vfield_named':
+            it = Item('enum', 'E', 'named', '', [trait_attr('map', 'A')],
+                      [Variant('V', 'named', [Field('x', 'i32', [Attr('map', 'm, ' + body)]), Field('y', 'i16')]), Variant('U')])
+            exp = {'from': tt_flat(tt, V, ['m']), 'into': tt_flat(tt, S, ['x'])}
+        elif site == 'vfield_tuple':
+            it = Item('enum', 'E', 'named', '', [trait_attr('map', 'A')],
+                      [Variant('V', 'tuple', [Field(None, 'i32', [Attr('map', '1, ' + body)]), Field(None, 'i16', [Attr('map', '0')])]), Variant('U')])
+            exp = {'from': tt_flat(tt, V, ['f1']), 'into': tt_flat(tt, S, ['f0'])}
+        elif site == 'variant_from':
+            it = Item('enum', 'E', 'named', '', [trait_attr('from', 'A')], [Variant('V', 'unit', [], [Attr('from', 'W, ' + body)]), Variant('U')])
+            exp = {'from': tt_flat(tt, V, ['E', ':', ':', 'V']), 'into': None}
+        elif site == 'default_case':
+            tr2 = [trait_attr('from', 'i32', '', 'Er', '_ ' + body)]
+            it = Item('enum', 'E', 'named', '', tr2, [Variant('V', 'unit', [], [Attr('literal', '1')]), Variant('U', 'unit', [], [Attr('literal', '2')])])
+            exp = {'from': tt_flat(tt, V, []), 'into': None}
+        else:   # nested_parent
+            it = Item('struct', 'S', 'named', '', [trait_attr('into', 'A'), trait_attr('into_existing', 'A')],
+                      [Field('k', 'i32'), Field('par', 'P', [Attr('parent', '[into(m, %s)] y, z' % body)])])
+            exp = {'from': None, 'into': tt_flat(tt, S, ['self', '.', 'par', '.', 'y'])}
+        it.meta = {'gen': 'c10', 'site': site, 'expect': exp, 'expr': tt_text(tt)}
+        out.append(it)
+    return out
